@@ -24,7 +24,7 @@ class Group:
     """one goto-instrument + cbmc run: a real function enforced against one (variant) contract"""
 
     def __init__(self, name, props, function, contract, build, timeout=900, tier='quick', bounded=None,
-                 expect_loops=0, note=''):
+                 expect_loops=0, note='', spec_checks=False):
         self.name = name
         self.props = props              # property ids this group serves
         self.function = function        # real function(s) under contract (for evidence)
@@ -35,6 +35,7 @@ class Group:
         self.bounded = bounded          # None or text "unwind N ..." -> never counted as proved
         self.expect_loops = expect_loops
         self.note = note
+        self.spec_checks = spec_checks  # thorough tier: also check the safety of the contract text itself
 
 
 TAG_RX = re.compile(r'/\*@([A-Z0-9,]+)\*/')
@@ -69,6 +70,7 @@ def clause_info(path, line, cache={}):
 
 
 def run_group(g, work, spec_checks, rulelog_cls, extra_cbmc=None):
+    spec_checks = spec_checks and g.spec_checks
     """returns dict(name, status in ok|failed|undecided, reason, obligations=[...], seconds, ...)"""
     t0 = time.time()
     gw = os.path.join(work, g.name)
